@@ -212,7 +212,8 @@ def rule_xlsx_writer(ctx):
         def write(interp_, args, kwargs):
             log.append(("write",) + tuple(args))
 
-        worksheet = Obj("xlsxwriter.Worksheet", {"write_string": write_string, "write": write})
+        worksheet = Obj("xlsxwriter.Worksheet", {"write_string": write_string, "write": write, "xls_strmax": 32767, "xls_colmax": 16384,
+                                                  "xls_rowmax": 1048576})
         workbook = Obj("xlsxwriter.Workbook", {"add_worksheet": stub(lambda i, a, k: worksheet), "close": stub(lambda i, a, k: log.append(("close",)))})
         interp = Interp(model, ch, externals={"xlsxwriter.Workbook": lambda i, a, k: workbook, "os.path.basename": lambda i, a, k: "x"})
         from ..absint import ClassRef
@@ -241,6 +242,61 @@ def rule_xlsx_writer(ctx):
     decide(ctx, "O16.5", "XlsxRowWriter(write_string at line/cell)", "cutplace.rowio.XlsxRowWriter.write_row", cell, min_cells=30, max_report=4)
 
 
+def rule_xlsx_writer_rejected_rows(ctx):
+    """O16.5b: a row the sheet cannot hold (a text longer than 32767 characters) is refused as a whole: nothing of it stays
+    in the sheet and the next row starts at the first column of the next free line - otherwise the table that was written
+    (the accepted rows) does not read back identically.  The worksheet stub answers like xlsxwriter: write_string returns
+    -2 for a text that is too long, and the limits are the attributes xls_strmax / xls_colmax / xls_rowmax."""
+    from ..absint import ClassRef
+
+    model = ctx.model
+    ctx.res.minimum("O16.5b", 1)
+    too_long = "x" * 32768
+
+    def cell(ch):
+        position = ch.choose("the item that is too long is item", [0, 1, 2])
+        entry = ch.choose("rows before", [0, 1])
+        log = []
+
+        @stub
+        def write_string(interp_, args, kwargs):
+            log.append(("write_string", args[0], args[1], args[2] if len(args[2]) < 10 else "<too long>"))
+            return -2 if len(args[2]) > 32767 else 0
+
+        worksheet = Obj("xlsxwriter.Worksheet", {"write_string": write_string, "write": write_string, "xls_strmax": 32767, "xls_colmax": 16384,
+                                                  "xls_rowmax": 1048576})
+        workbook = Obj("xlsxwriter.Workbook", {"add_worksheet": stub(lambda i, a, k: worksheet), "close": stub(lambda i, a, k: None)})
+        interp = Interp(model, ch, externals={"xlsxwriter.Workbook": lambda i, a, k: workbook, "os.path.basename": lambda i, a, k: "x"})
+        writer = interp.instantiate(ClassRef(model.cls("cutplace.rowio.XlsxRowWriter")), ["target.xlsx"], {})
+        write_row = interp.getattr(writer, "write_row")
+        good_rows = [["1", "2", "3"]] * entry
+        for row in good_rows:
+            interp.call(write_row, [list(row)], {})
+        bad_row = ["a", "b", "c"]
+        bad_row[position] = too_long
+        key = "%d row(s), then a row whose item %d is too long, then a row" % (entry, position)
+        try:
+            interp.call(write_row, [bad_row], {})
+            return (key, "the row is accepted", "raise DataFormatError")
+        except AbsRaise as raised:
+            if exc_name(raised.value) != "DataFormatError":
+                return (key, "raise " + exc_name(raised.value), "raise DataFormatError")
+        try:
+            interp.call(write_row, [["4", "5", "6"]], {})
+        except AbsRaise as raised:
+            return (key, "the writer cannot continue: " + exc_name(raised.value), "continues")
+        stored = {}
+        for _, line, column, text in log:
+            stored[(line, column)] = text
+        expected = {}
+        for line, row in enumerate(good_rows + [["4", "5", "6"]]):
+            for column, text in enumerate(row):
+                expected[(line, column)] = text
+        return (key, sorted(stored.items()), sorted(expected.items()))
+
+    decide(ctx, "O16.5b", "XlsxRowWriter(a rejected row leaves nothing behind)", "cutplace.rowio.XlsxRowWriter.write_row", cell, min_cells=6, max_report=3)
+
+
 def rule_raw_rows_dispatch(ctx):
     """O16.6: the requested sheet number reaches excel_rows."""
     from .c17 import raw_rows_dispatch_table
@@ -251,4 +307,4 @@ def rule_raw_rows_dispatch(ctx):
 
 from .common import rule_module_state  # noqa: E402
 
-RULES = [rule_sheet_selection, rule_cell_values, rule_xlsx_writer, rule_raw_rows_dispatch, rule_module_state]
+RULES = [rule_sheet_selection, rule_cell_values, rule_xlsx_writer, rule_xlsx_writer_rejected_rows, rule_raw_rows_dispatch, rule_module_state]
